@@ -819,6 +819,22 @@ func c11Rejections() []c11Request {
 				func() string { return e.observeDoc(id) + e.observeUser(user) }, []c11Claim{{What: fmt.Sprintf("status %d", want), Chk: func() (bool, string) { return false, "a rejection must not succeed" }}}
 		}}
 	}
+	// a refused update of an existing user / role (validation) must leave the principal and everything derived from it as it was
+	mkp := func(name, kind, body string) c11Request {
+		return c11Request{Name: name, Prepare: func(e *c11Env, n int) (func() *TestResponse, func() string, []c11Claim) {
+			user := fmt.Sprintf("c11u%d", n)
+			role := fmt.Sprintf("c11r%d", n)
+			e.mustAdmin("PUT", "/{{.db}}/_role/"+role, `{"admin_channels":["R"]}`, 201)
+			e.mustAdmin("PUT", "/{{.db}}/_user/"+user, `{"password":"letmein","admin_channels":["A"],"admin_roles":["`+role+`"],"email":"`+user+`@example.com"}`, 201)
+			e.mustAdmin("GET", "/{{.db}}/_user/"+user, "", 200)
+			target := user
+			if kind == "_role" {
+				target = role
+			}
+			return func() *TestResponse { return e.admin("PUT", "/{{.db}}/"+kind+"/"+target, body) },
+				func() string { return e.observeUser(user) + e.observeRole(role) }, []c11Claim{{What: "refused", Chk: func() (bool, string) { return false, "a rejection must not succeed" }}}
+		}}
+	}
 	return []c11Request{
 		mk("reject-sync-throw", `{"ch":["B"],"m":"new","reject":"throw","grant":"USER","grantch":"stolen"}`, true, false, 403),
 		mk("reject-requireUser", `{"ch":["B"],"m":"new","reject":"requireUser","grant":"USER","grantch":"stolen"}`, true, true, 403),
@@ -826,6 +842,16 @@ func c11Rejections() []c11Request {
 		mk("reject-requireAccess", `{"ch":["B"],"m":"new","reject":"requireAccess"}`, true, true, 403),
 		mk("reject-conflict-no-parent", `{"ch":["B"],"m":"new","grant":"USER","grantch":"stolen"}`, false, false, 409),
 		mk("reject-invalid-reserved-property", `{"ch":["B"],"m":"new","_sync":{"x":1}}`, true, false, 400),
+		mk("reject-if-refused-attachment-stub-without-data", `{"ch":["B"],"m":"new","grant":"USER","grantch":"stolen","_attachments":{"ghost.bin":{"stub":true,"revpos":1,"digest":"sha1-2jmj7l5rSw0yVb/vlWAYkK/YBwk="}}}`, true, false, 400),
+		mk("reject-if-refused-attachment-data-not-base64", `{"ch":["B"],"m":"new","grant":"USER","grantch":"stolen","_attachments":{"bad.bin":{"data":"%%%not-base64%%%"}}}`, true, false, 400),
+		mk("reject-wrong-parent-revision", `{"ch":["B"],"m":"new","grant":"USER","grantch":"stolen","_rev":"1-0000000000000000"}`, false, false, 409),
+		mk("reject-if-refused-expiry-not-a-number-or-date", `{"ch":["B"],"m":"new","grant":"USER","grantch":"stolen","_exp":"not-a-date"}`, true, false, 400),
+		mkp("reject-if-refused-user-update-invalid-email", "_user", `{"admin_channels":["Z1","Z2"],"email":"not an e-mail address"}`),
+		mkp("reject-if-refused-user-update-invalid-role-name", "_user", `{"admin_channels":["Z1"],"admin_roles":["bad,role:name"]}`),
+		mkp("reject-if-refused-user-update-name-mismatch", "_user", `{"name":"somebody-else","admin_channels":["Z1"]}`),
+		mkp("reject-if-refused-user-update-body-not-an-object", "_user", `["admin_channels","Z1"]`),
+		mkp("reject-if-refused-role-update-name-mismatch", "_role", `{"name":"some-other-role","admin_channels":["Z1"]}`),
+		mkp("reject-if-refused-role-update-body-not-an-object", "_role", `"admin_channels"`),
 	}
 }
 
@@ -877,7 +903,11 @@ func c11RunRequests(t *testing.T, run *vlib.Run, allowConflicts bool, requests [
 			return w
 		}
 		if isRejection {
-			if ok {
+			if ok && strings.HasPrefix(rq.Name, "reject-if-refused-") {
+				// whether the gateway refuses this input is its own business (it accepts some questionable inputs on purpose, e.g. it
+				// skips an invalid e-mail address with a warning); the row only demands that a refusal leaves no trace
+				run.Count("optional_rejection_rows_accepted", 1)
+			} else if ok {
 				run.Violation("rejection", "C11|"+rq.Name+"|rejected-write-was-accepted", fmt.Sprintf("status %d", resp.Code), witness(nil))
 			} else {
 				e.checkUnchanged(rq.Name, "none", before, observe(), pre, witness(nil))
